@@ -16,8 +16,8 @@ DB_RULE = ("cases = generated histories over {session commit (blocking / non-blo
            "(hash of all protocol lines) with >= 2 successful commits and >= 1 special event (overlay, rejected / deferred commit, rollback, reopen, overflow value).")
 
 
-def DB(focus, q, t, nops=14, big=False, scale=1, shards_q=8):
-    args = ["--focus", focus, "--nops", str(nops)] + (["--big"] if big else []) + (["--scale", str(scale)] if scale > 1 else [])
+def DB(focus, q, t, nops=14, big=False, scale=1, shards_q=8, segsize=0):
+    args = ["--focus", focus, "--nops", str(nops)] + (["--big"] if big else []) + (["--scale", str(scale)] if scale > 1 else []) + (["--segsize", str(segsize)] if segsize else [])
     return {"cmd": "db", "mode": "api", "args": args, "cases": {"quick": q, "thorough": t}, "shards": {"quick": min(shards_q, q), "thorough": 16}}
 
 
@@ -36,8 +36,8 @@ CRASH_RULE = ("cases = generated API histories (as for C01..C12); the parent run
               "the new state once the call had returned) and the follow-up commit must yield the reference root.")
 
 
-def CRASH(mode, focus, q, t, steps=2, shards_q=4, big=False, nops=8):
-    args = ["--mode", mode, "--focus", focus, "--nops", str(nops), "--steps", str(steps)] + (["--big"] if big else [])
+def CRASH(mode, focus, q, t, steps=2, shards_q=4, big=False, nops=8, segsize=0):
+    args = ["--mode", mode, "--focus", focus, "--nops", str(nops), "--steps", str(steps)] + (["--big"] if big else []) + (["--segsize", str(segsize)] if segsize else [])
     return {"cmd": "crash", "args": args, "cases": {"quick": max(1, q // shards_q), "thorough": max(1, t // 16)}, "shards": {"quick": shards_q, "thorough": 16}, "per_shard_cases": True}
 
 IMG_RUN = {"cmd": "image", "mode": "image", "cases": {"quick": 24, "thorough": 400}, "shards": {"quick": 8, "thorough": 16}}
@@ -73,7 +73,8 @@ PROPS = {
     },
     "C16": {
         "tags": ['C16', 'C01'],
-        "runs": IMG_CORPUS + [{"cmd": "image-prefix-shrink", "mode": "image", "cases": {"quick": 1, "thorough": 1}, "corpus": True}, dict(IMG_RUN)],
+        "runs": IMG_CORPUS + [{"cmd": "image-prefix-shrink", "mode": "image", "cases": {"quick": 1, "thorough": 1}, "corpus": True},
+                              {"cmd": "image-prefix-tail", "mode": "image", "cases": {"quick": 1, "thorough": 1}, "corpus": True}, dict(IMG_RUN)],
         "rule": IMG_RULE,
         "trusted_base": IMG_TB, "assumptions": IMG_ASSUME,
     },
@@ -113,6 +114,7 @@ PROPS = {
         "tags": ['C01'],
         "runs": DB_SCN(["empty-store-delete-only", "overwrite-huge-value-with-rollback"]) + IMG_CORPUS + [
             {"cmd": "image-prefix-shrink", "mode": "image", "cases": {"quick": 1, "thorough": 1}, "corpus": True},
+            {"cmd": "image-prefix-tail", "mode": "image", "cases": {"quick": 1, "thorough": 1}, "corpus": True},
             DB("kv", 160, 1600, nops=16, big=True),
             DB("kv", 6, 60, nops=20, big=True, scale=100, shards_q=6),
             DB("general", 80, 800, nops=14),
@@ -139,9 +141,9 @@ PROPS = {
         "lines": ['rollback', 'root', 'dread', 'seqn', 'reopen', 'commit', 'trycommit'],
         "tags": ['C09', 'C01', 'C02'],
         "runs": DB_SCN(["stale-nonblocking-then-rollback", "reopen-resurrects-pruned-delta", "rollback-all-then-reopen", "rollback-reopen-rollback-reopen", "overwrite-huge-value-with-rollback"]) + [
-            DB("rollback", 200, 2000, nops=18), DB("general", 80, 800, nops=16, big=True), CHURN],
+            DB("rollback", 200, 2000, nops=18), DB("rollback", 120, 1200, nops=20, segsize=8192), DB("general", 80, 800, nops=16, big=True), CHURN],
         "rule": DB_RULE + " C09 focus: max_rollback_log_len in {1,2,3,5}; rollback(n) with n in {0,1,2,len,len+1}; rollbacks after reopen, after stale commits, over overlay commits and large values; the oracle keeps the previous committed maps.",
-        "trusted_base": API_TB, "assumptions": API_ASSUME + ["segment roll-over of the rollback log needs the segment-size hook (not yet installed): covered only through the 64 MiB default, i.e. not reached by quick runs"],
+        "trusted_base": API_TB, "assumptions": API_ASSUME + ["segment roll-over and pruning of the rollback log are reached through the cfg(nomt_verif) segment-size override (8 KiB segments); the 64 MiB default is not reached by quick runs"],
     },
     "C11": {
         "lines": ['begin', 'read', 'prove', 'finish', 'overlay', 'ocommit', 'otrycommit', 'root', 'odrop', 'sdrop', 'dread'],
@@ -159,25 +161,26 @@ PROPS = {
     },
     # ---------------- crash / power-loss / fault enumeration (harness/src/crash.rs + cfg(nomt_verif) I/O hook) ----------------
     "C03": {
-        "runs": [CRASH("crash", "general", 6, 60, steps=2, shards_q=6), CRASH("crash", "rollback", 3, 30, steps=2, shards_q=3),
+        "runs": [CRASH("crash", "general", 6, 60, steps=2, shards_q=6), CRASH("crash", "rollback", 3, 30, steps=2, shards_q=3), CRASH("crash", "rollback", 3, 30, steps=2, shards_q=3, nops=12, segsize=8192),
                  CRASH("nested", "general", 2, 20, steps=1, shards_q=2), CRASH("crash", "kv", 2, 20, steps=1, shards_q=2, big=True)],
         "rule": CRASH_RULE + " C03: process crash (every issued effect stays) at EVERY event index of the chosen operations (session commits, overlay commits, rollbacks), plus nested crashes at every event of the recovery itself. distinct & non-trivial = distinct (operation, event index strictly inside the operation, variant) triples.",
         "trusted_base": DISK_TB, "assumptions": DISK_ASSUME,
     },
     "C04": {
-        "runs": [CRASH("power", "general", 4, 40, steps=2, shards_q=4), CRASH("power", "rollback", 2, 20, steps=2, shards_q=2), CRASH("power", "kv", 2, 20, steps=1, shards_q=2, big=True)],
+        "runs": [CRASH("power", "general", 4, 40, steps=2, shards_q=4), CRASH("power", "rollback", 2, 20, steps=2, shards_q=2), CRASH("power", "rollback", 4, 40, steps=3, shards_q=4, nops=12, segsize=8192), CRASH("power", "kv", 2, 20, steps=1, shards_q=2, big=True)],
         "rule": CRASH_RULE + " C04: at every event index the child reverts un-fsynced effects before dying: all of them, a seeded random half, and each single one (all single-loss subsets when <= 6 are pending, else a rotating single loss / single survivor); an effect counts as synced only if it COMPLETED before an fsync of its file was ISSUED and that fsync completed.",
         "trusted_base": DISK_TB, "assumptions": DISK_ASSUME + ["4 KiB page atomicity; tmpfs stands in for the device and the hook's journal for the page cache"],
     },
     "C14": {
         "runs": [dict(CRASH("fault", "kv", 3, 3, steps=3, shards_q=1, nops=10), seed=5), dict(CRASH("fault", "general", 2, 2, steps=2, shards_q=1), seed=2),
-                 CRASH("fault", "general", 6, 60, steps=2, shards_q=6), CRASH("fault", "rollback", 3, 30, steps=2, shards_q=3), CHURN],
+                 CRASH("fault", "general", 6, 60, steps=2, shards_q=6), CRASH("fault", "rollback", 3, 30, steps=2, shards_q=3),
+                 CRASH("fault", "kv", 4, 40, steps=3, shards_q=4, big=True, nops=10), CHURN],
         "rule": CRASH_RULE + " C14: every event index of the chosen operations completes with EIO, once and persistently (writes fail at completion, fsync / resize / unlink at the call); the child reports the result of the call and is_poisoned, then the directory is reopened. Two fixed-seed corpus runs replay the histories that exposed F2 and F8.",
         "trusted_base": DISK_TB, "assumptions": DISK_ASSUME + ["bucket exhaustion is exercised by the API histories with small tables (not yet at every allocation index)"],
     },
     "C10": {
         "tags": ['C10', 'C01', 'C02', 'C05', 'C09'],
-        "runs": DB_SCN(["reopen-resurrects-pruned-delta", "rollback-all-then-reopen", "rollback-reopen-rollback-reopen"]) + [DB("reopen", 200, 2000, nops=18), DB("reopen", 6, 60, nops=16, big=True, scale=50, shards_q=6), DB("rollback", 60, 600, nops=16),
+        "runs": DB_SCN(["reopen-resurrects-pruned-delta", "rollback-all-then-reopen", "rollback-reopen-rollback-reopen"]) + [DB("reopen", 200, 2000, nops=18), DB("reopen", 6, 60, nops=16, big=True, scale=50, shards_q=6), DB("rollback", 60, 600, nops=16), DB("reopen", 80, 800, nops=18, segsize=8192),
                  CRASH("crash", "reopen", 2, 20, steps=1, shards_q=2), CHURN],
         "rule": DB_RULE + " C10 focus: the handle is dropped and reopened (with an independently drawn runtime configuration: workers, cache sizes, io workers, warm-up, prepopulation, upper levels) at random positions, up to half of all steps; after every reopen root, sync_seqn, sampled values, hash_table_utilization().occupied (must equal the pre-close value) and all later commits / rollbacks are compared with a model that ignores close/open.",
         "trusted_base": API_TB, "assumptions": API_ASSUME + ["open retried for up to 5 s when the old handle's directory lock is still held by a background thread (that delay is C20's subject)"],
